@@ -1,5 +1,10 @@
 mod storage;
 
+#[cfg(aquatic_verif)]
+pub mod verif_storage {
+    pub use super::storage::*;
+}
+
 use std::cell::RefCell;
 use std::rc::Rc;
 use std::time::Duration;
@@ -30,6 +35,15 @@ pub async fn run_swarm_worker(
     server_start_instant: ServerStartInstant,
     worker_index: usize,
 ) -> anyhow::Result<()> {
+    #[cfg(aquatic_verif)]
+    match aquatic_common::verif::probe("ws.swarm.start") {
+        aquatic_common::verif::ACTION_RETURN_OK => return Ok(()),
+        aquatic_common::verif::ACTION_RETURN_ERR => {
+            return Err(anyhow::anyhow!("verif: injected swarm worker error"))
+        }
+        _ => (),
+    }
+
     let (_, mut control_message_receivers) = control_message_mesh_builder
         .join(Role::Consumer)
         .await
@@ -52,6 +66,9 @@ pub async fn run_swarm_worker(
     TimerActionRepeat::repeat(enclose!((config, torrents, access_list) move || {
         enclose!((config, torrents, access_list) move || async move {
             torrents.borrow_mut().clean(&config, &access_list, server_start_instant);
+
+            #[cfg(aquatic_verif)]
+            aquatic_common::verif::count("ws.clean_done");
 
             Some(Duration::from_secs(config.cleaning.torrent_cleaning_interval))
         })()
@@ -111,6 +128,9 @@ where
                 for (info_hash, peer_id) in announced_info_hashes {
                     torrents.handle_connection_closed(info_hash, peer_id, ip_version);
                 }
+
+                #[cfg(aquatic_verif)]
+                aquatic_common::verif::count("ws.swarm.connection_closed_handled");
             }
         }
     }
@@ -135,6 +155,9 @@ async fn handle_request_stream<S>(
         .for_each_concurrent(
             SHARED_IN_CHANNEL_SIZE,
             move |(meta, in_message)| async move {
+                #[cfg(aquatic_verif)]
+                aquatic_common::verif::probe("ws.swarm.request");
+
                 let mut out_messages = Vec::new();
 
                 match in_message {
